@@ -5,5 +5,5 @@ PROP = dict(
     level_note="Trusted: harness in-memory storage engine; the model's nearest-common-ancestor and net-merge formula (the weakest reading of the statement: any merge failure is accepted as long as the parent is untouched, except that a merge whose child only added objects must succeed). Not covered here: merge racing with parent commits under a scheduler (C12 covers racing commits).",
     technique="stateful property-based testing (rapid) against a reference model",
     assumptions=["storage is the harness's in-memory engine", "merge conflicts are allowed to fail; only their atomicity and the readability of both branches are checked"],
-    tests=[dict(name="TestMergeRevert", quick=(8, 120), thorough=(16, 1500))],
+    tests=[dict(name="TestMergeRevert", quick=(8, 120), thorough=(16, 800))],
 )
